@@ -634,9 +634,15 @@ def compare(ctx, case, obs, out, stats):
         return
     if kind == 'cx':
         lines = obs['lines']
+        # "nothing emitted" is one observable: an early return and add_line(0.0) are not distinguished
         if tag == 'skip':
-            if lines or not obs['returned_same_spectrum']:
-                broke('skip', 'model skips, implementation called add_line %r' % (lines,))
+            if any(l[0] != 0.0 for l in lines) or not obs['returned_same_spectrum']:
+                broke('skip', 'model emits nothing, implementation called add_line %r' % (lines,))
+            elif lines:
+                ctx.count('K: early exit in the model, add_line(0.0) in the implementation')
+            return
+        if tag == 'line' and not lines and vals[0] == 0.0:
+            ctx.count('K: add_line(0.0) in the model, early exit in the implementation')
             return
         if tag != 'line' or not lines:
             broke('shape', 'model %s, implementation add_line calls %r' % (tag, lines))
@@ -697,7 +703,7 @@ def plasma_line(case):
 
 
 EDGES_CX = ['beam-density-zero', 'beam-point-outside', 'receiver-density-zero', 'receiver-temperature-zero',
-            'zero-direction', 'stationary', 'neutral-nonnull', 'uniform', 'receiver-missing']
+            'zero-direction', 'stationary', 'neutral-nonnull', 'uniform', 'receiver-missing', 'plasma-density-zero']
 EDGES_BES = ['beam-density-zero', 'beam-point-outside', 'zero-direction', 'stationary', 'neutral-nonnull',
              'plasma-density-zero']
 
@@ -742,6 +748,8 @@ def process(ctx, cases):
         observed.append(obs)
         lines.append(model_line(case))
         lines.append(plasma_line(case))
+    if not cases:
+        return stats
     outs = ctx.driver(lines)
     if outs[0] != 'ok':
         ctx.broke('correspondence', 'C05 driver const', outs[0])
@@ -794,8 +802,16 @@ def run(ctx, extra_cases=()):
                         'float rounding is not modelled; K and S compare to 1e-9 relative']
     ctx.lean_check(['Cherab.Props.C05'], 'Cherab/Audit/C05.lean')
     constants_monitor(ctx)
-    cases = list(extra_cases) + corpus_cases() + gen_all(ctx, ctx.n(1500, 20000))
-    stats = process(ctx, cases)
+    total = ctx.n(4000, 120000)
+    stats = process(ctx, list(extra_cases) + corpus_cases())
+    done = 0
+    while done < total:                      # batches keep the memory flat in the thorough tier
+        k = min(5000, total - done)
+        st = process(ctx, gen_all(ctx, k))
+        for key in ('bit-exact', 'rounded'):
+            stats[key] += st[key]
+        stats['maxrel'] = max(stats['maxrel'], st['maxrel'])
+        done += k
     ctx.extra['float_agreement'] = stats
 
 
